@@ -423,6 +423,7 @@ def bool_index_1d(cx, arr, mask):
     if not T.same(arr.shape[0], mask.shape[0]):
         cx.require(f"safe.broadcast#{cx.ordinal('safe.broadcast')}", T.eq(arr.shape[0], mask.shape[0]), "safe", "mask extent")
     ms = MaskSel(cx, mask, arr.shape[0])
+    cx.ghost["last_masksel"] = ms
     ag = arr.getter()
 
     def elem(idx):
